@@ -28,6 +28,7 @@ type l3Case struct {
 	lastEDNS bool
 	lastDO   bool
 	queried  bool
+	optTags  string
 	newF     []string // the fields of the `l3 new` op (to rebuild the case for a retry)
 }
 
@@ -49,7 +50,7 @@ func (c *l3Case) close() {
 	}
 }
 
-// l3 new <family> <n> <variant> <mode> <outcap> <intcap> <sigcap> <qmin> <maxdepth>
+// l3 new <family> <n> <variant> <mode> <outcap> <intcap> <sigcap> <qmin> <maxdepth> [opts: nocache,signed,failover]
 func l3New(f []string) vlib.Res {
 	curL3.close()
 	curL3 = nil
@@ -57,7 +58,21 @@ func l3New(f []string) vlib.Res {
 	o := sysOpts{Mode: f[5], OutCap: uint32(vlib.AtoU64(f[6])), IntCap: uint32(vlib.AtoU64(f[7])), SigCap: uint32(vlib.AtoU64(f[8])),
 		QMin: vlib.Atoi(f[9]), MaxDepth: vlib.Atoi(f[10]), DNSSEC: fam == "manysig"}
 	signed := fam == "manysig"
-	c := &l3Case{fam: fam, mode: o.Mode}
+	optTags := ""
+	if len(f) > 11 {
+		for _, op := range strings.Split(f[11], ",") {
+			switch op {
+			case "nocache":
+				o.NoCache = true
+			case "failover":
+				o.Failover = true
+			case "signed":
+				signed, o.DNSSEC = true, true
+			}
+			optTags += "," + op
+		}
+	}
+	c := &l3Case{fam: fam, mode: o.Mode, optTags: optTags}
 	c.topo = buildTopo(fam, n, v, signed)
 	c.main = newSysPipe(c.topo, o)
 	if o.Mode == "shadow" {
@@ -132,6 +147,22 @@ func judgeBudget(entry string, sp *sysPipe, r qres, edns bool) (verdict string, 
 				return fmt.Sprintf("FAIL sig=%s/counter-past-budget out=%d int=%d sig=%d", entry, r.Snap.OutboundQueries, r.Snap.InternalQueries, r.Snap.SignatureChecks), false
 			}
 		}
+		// chain-of-trust sub-lookups are internal queries: every distinct DS / DNSKEY question that
+		// reached an upstream was one admitted sub-query
+		if r.TrustQs > int(caps[1]) {
+			return fmt.Sprintf("FAIL sig=%s/trust-sub-lookups-past-internal-budget distinct-ds-dnskey-questions=%d budget=%d",
+				entry, r.TrustQs, caps[1]), false
+		}
+		// a tree whose latched rejection is not the outbound one (no straggler can latch those after
+		// the reply) must have answered with the policy SERVFAIL, and must not have gone to a fallback
+		if r.Latched > 1 && r.Msg != nil {
+			if r.Msg.Rcode != dns.RcodeServerFailure {
+				return fmt.Sprintf("FAIL sig=%s/over-budget-reply-not-servfail rcode=%d latched-kind=%d fallback-packets=%d", entry, r.Msg.Rcode, r.Latched-1, r.FBPkts), true
+			}
+			if r.FBPkts > 0 {
+				return fmt.Sprintf("FAIL sig=%s/fallback-queried-after-budget-exhausted latched-kind=%d packets=%d", entry, r.Latched-1, r.FBPkts), true
+			}
+		}
 		over = budgetEDE(r.Msg) || (r.EnfErr && r.Msg != nil && r.Msg.Rcode == dns.RcodeServerFailure)
 		if over {
 			_, _, has := edeOf(r.Msg)
@@ -174,7 +205,7 @@ func l3Query(f []string) vlib.Res {
 	}
 	edns, do, own := f[2] == "t", f[3] == "t", f[4] == "t"
 	r := c.main.query(c.topo.QName, c.topo.QType, edns, do, "10.1.2.3:4242", own)
-	tags := "nt," + c.fam + "," + c.mode
+	tags := "nt," + c.fam + "," + c.mode + c.optTags
 	if late(c.main, r) {
 		// the box is shared: before latency is flagged the same query gets one more chance on a
 		// freshly built identical case, with nothing else running in this process
